@@ -165,17 +165,17 @@ pub struct FreeReport {
 
 /// Judges that need no model: J01 (C01), J02 + finite repeat-free iterators from every node the
 /// arena reports live (C02).
-fn judge(s: &FState, target: Props) -> Vec<Failure> {
+fn judge(s: &FState, target: Props) -> (Vec<Failure>, bool) {
     let obs = match guarded(|| obs::observe(&s.arena)) {
         Ok(o) => o,
         Err(m) => {
-            return vec![Failure {
+            return (vec![Failure {
                 props: C01,
                 judge: "observe",
                 shaping: true,
                 sig: "observe|free|-|unobservable".into(),
                 detail: format!("reading the arena through as_slice()/accessors panicked: {m}"),
-            }]
+            }], false)
         }
     };
     let mut out = Vec::new();
@@ -185,7 +185,9 @@ fn judge(s: &FState, target: Props) -> Vec<Failure> {
     if target & C02 != 0 {
         out.extend(judges::j02(&obs));
     }
-    if target & C10 != 0 && judges::j01(&s.arena, &obs).is_empty() && judges::j02(&obs).is_empty() {
+    // the law is evaluated wherever the sibling links are acyclic (so that the iterators end),
+    // also in arenas whose links are otherwise inconsistent
+    if target & C10 != 0 && judges::j02(&obs).is_empty() {
         out.extend(c10_law(&s.arena, &obs));
     }
     // a single next() of descendants/traverse can loop for ever on links that are already known to
@@ -231,7 +233,7 @@ fn judge(s: &FState, target: Props) -> Vec<Failure> {
             }
         }
     }
-    out
+    (out, sound)
 }
 
 pub fn explore(n_max: usize, a_max: usize, target: Props, threads: usize, deadline: Option<Instant>) -> FreeReport {
@@ -262,7 +264,7 @@ pub fn explore(n_max: usize, a_max: usize, target: Props, threads: usize, deadli
         }
         let seen_ref = &seen;
         let chunk = (frontier.len() / (threads.max(1) * 8)).max(1);
-        let outs: Vec<(Vec<(u32, FOp, FState, u128, Vec<Failure>)>, u64)> = pool.install(|| {
+        let outs: Vec<(Vec<(u32, FOp, FState, u128, Vec<Failure>, bool)>, u64)> = pool.install(|| {
             frontier
                 .par_chunks(chunk)
                 .map(|states| {
@@ -291,8 +293,8 @@ pub fn explore(n_max: usize, a_max: usize, target: Props, threads: usize, deadli
                             }
                             let k = key(&n);
                             if !seen_ref.contains(&k) && local.insert(k) {
-                                let fails = judge(&n, target);
-                                cands.push((*idx, op, n, k, fails));
+                                let (fails, sound) = judge(&n, target);
+                                cands.push((*idx, op, n, k, fails, sound));
                             }
                         }
                     }
@@ -303,7 +305,7 @@ pub fn explore(n_max: usize, a_max: usize, target: Props, threads: usize, deadli
         let mut next = Vec::new();
         for (cands, tr) in outs {
             rep.transitions += tr;
-            for (parent, op, st, k, fails) in cands {
+            for (parent, op, st, k, fails, sound) in cands {
                 if !seen.insert(k) {
                     continue;
                 }
@@ -315,7 +317,11 @@ pub fn explore(n_max: usize, a_max: usize, target: Props, threads: usize, deadli
                         rep.violations.push((f, path_of(&recs, idx)));
                     }
                 }
-                next.push((idx, st));
+                // C01/C02 stop at the first unsound arena anyway; for other targets an arena whose
+                // links are inconsistent is judged but not expanded (calls on it may never return)
+                if sound || target & (C01 | C02) != 0 {
+                    next.push((idx, st));
+                }
             }
         }
         rep.levels += 1;
